@@ -16,8 +16,10 @@ def request_path(environ: Environ) -> str:
     """
     path = environ.get("PATH_INFO", "")
     try:
-        return path.encode("latin-1").decode("utf-8")
-    except UnicodeError:
+        # surrogateescape: bytes that are not UTF-8 reach the file system as they are
+        # (they must not alias the file whose name is their Latin-1 reading)
+        return path.encode("latin-1").decode("utf-8", "surrogateescape")
+    except UnicodeError:  # a str that is not Latin-1: not a PEP 3333 path
         return path
 
 
